@@ -139,6 +139,34 @@ def run(chk: Check, repo: Repo) -> None:
     cfg, paths = _run(repo, f, reg_calls, {"self.tasks": AList((t1, t2))})
     got = {(tuple(t for t in p.env.get("trace", ()) if t.startswith("cancel:")), repr(p.env.get("self.tasks"))) for p in paths}
     chk.ob("registry-stop", f.site(), got == {(("cancel:t1", "cancel:t2"), "[]")}, f"stop: {sorted(got)}; reference cancel every task, registry empty", key="reg-stop")
+    # the two views of "registered" agree: wherever the registry cancels a task it drops (remove_task, stop) it resets the
+    # flag Task._start() tests - a dropped task that kept it can be restart()ed outside the registry, where neither
+    # remove_task() nor stop() reach it (and start_task() starts a second instance next to it)
+    n_drop = 0
+    for name in ("remove_task", "stop"):
+        f_ = R(name)
+        for blk in [x for x in ast.walk(f_.node) if hasattr(x, "body") and isinstance(getattr(x, "body"), list)]:
+            for i, st in enumerate(blk.body):
+                if isinstance(st, ast.Expr) and isinstance(st.value, ast.Call) and isinstance(st.value.func, ast.Attribute) and st.value.func.attr == "cancel":
+                    recv = ast.unparse(st.value.func.value)
+                    n_drop += 1
+                    ok = any(isinstance(z, ast.Assign) and len(z.targets) == 1 and ast.unparse(z.targets[0]) == f"{recv}.xknx" and isinstance(z.value, ast.Constant) and z.value.value is None for z in blk.body[i + 1:])
+                    chk.ob("dropped-task-loses-its-registration-flag", f_.site(st), ok, f"TaskRegistry.{name}: `{recv}.cancel()` " + (f"is followed by `{recv}.xknx = None`" if ok else "drops the task but leaves `.xknx` set: Task.restart() starts it again outside the registry and nothing stops that instance"), key=f"drop-flag|{name}")
+    chk.count("registry drop sites", n_drop)
+    chk.ob("registry-drop-sites", R("stop").site(), n_drop >= 2, f"{n_drop} cancel-and-drop sites in TaskRegistry.remove_task/stop (2 confirmed by reading)", key="drop-sites")
+    # XKNX.stop(): the telegrams it still processes (join(), the queue's own drain) reach the devices, which start tasks
+    # (reset_after, cooldown, context timeouts) - the registry is stopped and the device tasks are removed behind the last
+    # statement that processes telegrams, on every path that returns
+    xs = repo.func("xknx.xknx", "XKNX.stop")
+    chk.unit(xs)
+    xcfg = CFG(xs.node)
+    def at(nm: str) -> list[int]:
+        return [n.id for n in xcfg.nodes if n.ast is not None and n.kind == "stmt" and any(call_name(c) == nm for c in calls(n.ast))]
+    drains = at("self.join") + at("self.telegram_queue.stop")
+    for what, nm in (("the task registry is stopped", "self.task_registry.stop"), ("the device tasks are removed", "self.devices.async_remove_device_tasks")):
+        sweep = at(nm)
+        ok = bool(drains) and bool(sweep) and all(xcfg.all_paths_hit(d, sweep, ends=[xcfg.exit]) for d in drains)
+        chk.ob("no-task-survives-the-drained-telegrams", xs.site(), ok, f"XKNX.stop(): {what} behind the last processed telegram" if ok else f"XKNX.stop(): some path returns without `{nm}()` after join()/telegram_queue.stop() - a telegram processed there starts a device task (reset_after, cooldown, ...) that stays registered and running after stop() returned", key=f"xknx-stop|{nm}")
     f = R("connection_state_changed_cb"); chk.unit(f)
     states = repo.enum_members(repo.cls("xknx.core.connection_state", "XknxConnectionState"))
     def hook(e, env):
